@@ -9,7 +9,7 @@ import pickle
 
 import numpy as np
 
-from ..ctx import exc_in_repo, short_exc
+from ..ctx import exc_in_repo, scribble, short_exc
 
 RULE = ("cases = (box multiset, p, page_size, query): n in {0..70, 257, 1000, 5000}, d in {1,2,3}, "
         "integer-grid boxes (ties with query edges), duplicates, zero-extent boxes, all rows "
@@ -219,6 +219,8 @@ def check_case(ctx, case):
                                   expected=[b.tolist()[:20] for b in held[1]],
                                   observed=[np.asarray(a).tolist()[:20] for a in held[0]],
                                   case={**case, "configs": [[p, ps]]})
+                # ... and the caller may write into it: later answers are judged after that
+                ctx.count("caller_written_results", scribble(held[0]))
             held = ([gi, gco[0], gco[1]], [np.array(gi, copy=True), np.array(gco[0], copy=True),
                                           np.array(gco[1], copy=True)])
             gi = np.asarray(gi).astype(np.int64)
